@@ -758,13 +758,16 @@ pub fn gen_trait(t: &mut Tape, name: &str, cfg: &TraitGenCfg) -> TraitSrc {
 
 /// Valid trait-mode attribute arguments.
 pub fn gen_trait_attr(t: &mut Tape) -> String {
-    let head = match t.weighted(&[5, 2, 2, 1, 1, 1]) {
+    let head = match t.weighted(&[5, 2, 2, 1, 1, 1, 1, 1]) {
         0 => vec![],
         1 => vec!["delegate_by = ref".to_string()],
         2 => vec!["TraitImpl".to_string(), "delegate_by = DelegateTrait".to_string()],
         3 => vec!["pub TraitImpl".to_string(), "delegate_by = ref".to_string()],
         4 => vec!["delegate_by = Borrow".to_string()],
-        _ => vec!["delegate_by = Self".to_string()],
+        5 => vec!["delegate_by = Self".to_string()],
+        // the deprecated spelling together with a delegation-target trait, and a bare `delegate_by`
+        6 => vec!["TraitImpl".to_string(), "delegate_by = Borrow".to_string()],
+        _ => vec!["delegate_by".to_string()],
     };
     let mut parts = head;
     let pool = ["?Send", "mock_api = TraitMock", "unimock", "unimock = false", "unimock = true", "mockall", "mockall = false"];
